@@ -19,8 +19,8 @@ def check(tier, seed):
     out.add_report(rep, lambda r: "C08" in r.props)
     out.labels = {"proved": 0, "proved_at_shape": len([r for r in out.selected if r.status == "proved"]), "bounded": 0}
     out.assumptions = ["A-REAL: machine floats treated as mathematical reals",
-                       "shapes: n <= %d, memory m = 0 (W = 0, theta > 0 symbolic); every bound pattern at n <= 2" %
-                       (2 if tier == "quick" else 3),
+                       "shapes: n <= 2 with every bound pattern (thorough: plus n = 3 without finite bounds; a full n = 3 "
+                       "run does not fit the budget), memory m = 0 (W = 0, theta > 0 symbolic)",
                        "A-SAFEGUARD: the Fortran trick f'' = max(f'', 1e-30 f''_0) is inactive (non-zero gradient "
                        "components within a factor 1e14 of each other)",
                        "premises of the property: feasible x, non-zero projected gradient, theta > 0",
@@ -29,7 +29,7 @@ def check(tier, seed):
     out.explanation = ("postconditions of the real get_cauchy_point discharged by z3 (NRA) for all real inputs at the "
                        "stated shapes: proved-at-shape, counted as bounded in shape; plus a bounded native comparison "
                        "with memory.")
-    out.extra["shapes"] = {"n": [1, 2] if tier == "quick" else [1, 2, 3], "memory_pairs": [0]}
+    out.extra["shapes"] = {"n": [1, 2] if tier == "quick" else [1, 2, "3 (unbounded pattern only)"], "memory_pairs": [0]}
     attach_standin(out, PID, tier, seed, quick_runs=400, thorough_runs=20000,
                    what="native: real get_cauchy_point with 0..5 stored pairs, n 1..10, against an independent "
                         "piecewise-quadratic search on the dense model (first local minimiser, pinning, decrease, aux)")
